@@ -19,6 +19,9 @@ type irCtx struct {
 }
 
 func retTok(c *irCtx, r *ast.ReturnStmt) string {
+	if len(r.Results) == 0 {
+		return ".nothing"
+	}
 	if len(r.Results) != 1 {
 		return ".unknown"
 	}
@@ -40,7 +43,7 @@ func retTok(c *irCtx, r *ast.ReturnStmt) string {
 		return ".boolF"
 	case c.valName != "" && e == c.valName:
 		return ".value"
-	case e == "e.value":
+	case e == "e.value" || e == "e.Value":
 		return ".cur"
 	case e == "0":
 		return ".zero"
@@ -155,6 +158,10 @@ func foundBody(c *irCtx, stmts []ast.Stmt, inRemove bool) []string {
 		case *ast.ReturnStmt:
 			out = append(out, ".ret "+retTok(c, t))
 		case *ast.IfStmt:
+			if end := relinkEnd(t); end != "" && !inRemove {
+				out = append(out, ".relink "+end)
+				continue
+			}
 			// remove: `if prev != nil { prev.next = e.next } else { tab[index] = e.next }` is the unlink itself
 			if inRemove && strings.HasPrefix(exprStr(t.Cond), "(prev!=nil)") && t.Else != nil {
 				a := stmtAssign(t.Body.List)
@@ -308,6 +315,12 @@ func methodIR(fd *ast.FuncDecl, isRemove bool) string {
 				} else {
 					out = append(out, ".unknown")
 				}
+			case cond == "(this.count==0)" && len(t.Body.List) == 1 && t.Else == nil:
+				if r, ok := t.Body.List[0].(*ast.ReturnStmt); ok {
+					out = append(out, ".retIfEmpty "+retTok(c, r))
+				} else {
+					out = append(out, ".unknown")
+				}
 			case cond == "(this.count>=this.threshold)":
 				// rehash(); tab = this.table; index = <hash> % uint(len(tab))
 				ok := len(t.Body.List) == 3 && stmtCalls(t.Body.List[0]) == "this.rehash()" &&
@@ -342,12 +355,44 @@ func methodIR(fd *ast.FuncDecl, isRemove bool) string {
 				}
 			case l == "prev" && r == "nil":
 				// binding
+			case l == "this.count" && r == "0" && t.Tok == token.ASSIGN:
+				out = append(out, ".countZero")
+			case (l == "this.header.link_next" || l == "this.header.link_prev") && t.Tok == token.ASSIGN:
+				// `header.link_next = header; header.link_prev = header` (either order; the second may read the first)
+				other := "this.header.link_prev"
+				if l == other {
+					other = "this.header.link_next"
+				}
+				ok := (r == "this.header") && i+1 < len(body)
+				if ok {
+					n := stmtAssign(body[i+1 : i+2])
+					ok = n == other+"=this.header" || n == other+"="+l
+				}
+				if ok {
+					out = append(out, ".headerReset")
+					i++
+				} else {
+					out = append(out, ".unknown")
+				}
 			default:
 				out = append(out, ".unknown")
 			}
 		case *ast.DeclStmt:
 			// `var prev *Entry` / `var prev *Entry = nil`
 		case *ast.ForStmt:
+			if ia, ok := t.Init.(*ast.AssignStmt); ok && exprStr(ia.Lhs[0]) == "index" {
+				okc := exprStr(ia.Rhs[0]) == "(len(tab)-1)" && exprStr(t.Cond) == "(index>=0)" && len(t.Body.List) == 1 &&
+					stmtAssign(t.Body.List) == "tab[index]=nil"
+				if p, ok := t.Post.(*ast.IncDecStmt); !ok || p.Tok != token.DEC || exprStr(p.X) != "index" {
+					okc = false
+				}
+				if okc {
+					out = append(out, ".clearBuckets")
+				} else {
+					out = append(out, ".unknown")
+				}
+				break
+			}
 			loopOK := false
 			if t.Init == nil && t.Post == nil {
 				loopOK = true
@@ -394,6 +439,16 @@ func methodIR(fd *ast.FuncDecl, isRemove bool) string {
 				out = append(out, ".unknown")
 			}
 		case *ast.ReturnStmt:
+			if len(t.Results) == 1 {
+				switch exprStr(t.Results[0]) {
+				case "this.remove(this.header.link_next.key)":
+					out = append(out, ".retRemoveEnd .front")
+					continue
+				case "this.remove(this.header.link_prev.key)":
+					out = append(out, ".retRemoveEnd .back")
+					continue
+				}
+			}
 			out = append(out, ".ret "+retTok(c, t))
 		case *ast.DeferStmt:
 			if stmtCalls(t) != "this.lock.Unlock()" {
@@ -548,4 +603,252 @@ func rehashFacts(fd *ast.FuncDecl) string {
 		return "false"
 	}
 	return fmt.Sprintf("⟨%d, %d, %d, %d, %s, %s, %s, %s⟩", mul, add, lo, off, b(byNew), b(head), b(installs), b(thr))
+}
+
+// cvFacts reads the bucket loop of ContainsValue.
+func cvFacts(fd *ast.FuncDecl) string {
+	unknown := "⟨false, false, 0, 0, false⟩"
+	if fd == nil {
+		return unknown
+	}
+	names, _ := params(fd)
+	res := unknown
+	ast.Inspect(fd.Body, func(n ast.Node) bool {
+		fs, ok := n.(*ast.ForStmt)
+		if !ok {
+			return true
+		}
+		as, ok := fs.Init.(*ast.AssignStmt)
+		if !ok || len(as.Lhs) != 1 {
+			return true
+		}
+		iv := exprStr(as.Lhs[0])
+		init := exprStr(as.Rhs[0])
+		fromLen := init == "len(tab)"
+		if !fromLen && init != "(len(tab)-1)" {
+			return true
+		}
+		if p, ok := fs.Post.(*ast.IncDecStmt); !ok || p.Tok != token.DEC || exprStr(p.X) != iv {
+			return false
+		}
+		var lo int
+		strict := true
+		if n, _ := fmt.Sscanf(exprStr(fs.Cond), "("+iv+">%d)", &lo); n != 1 {
+			if n, _ := fmt.Sscanf(exprStr(fs.Cond), "("+iv+">=%d)", &lo); n != 1 {
+				return false
+			}
+			strict = false
+		}
+		off, cmp := -1, false
+		for _, st := range fs.Body.List {
+			in, ok := st.(*ast.ForStmt)
+			if !ok {
+				continue
+			}
+			if ia, ok := in.Init.(*ast.AssignStmt); ok {
+				switch exprStr(ia.Rhs[0]) {
+				case "tab[" + iv + "]":
+					off = 0
+				case "tab[(" + iv + "-1)]":
+					off = 1
+				}
+			}
+			ast.Inspect(in.Body, func(m ast.Node) bool {
+				if is, ok := m.(*ast.IfStmt); ok {
+					c := exprStr(is.Cond)
+					if (c == "(e.value=="+names[0]+")" || c == "(e.Value=="+names[0]+")") && len(is.Body.List) == 1 {
+						if r, ok := is.Body.List[0].(*ast.ReturnStmt); ok && exprStr(r.Results[0]) == "true" {
+							cmp = true
+						}
+					}
+				}
+				return true
+			})
+		}
+		if off < 0 {
+			return false
+		}
+		b := func(x bool) string {
+			if x {
+				return "true"
+			}
+			return "false"
+		}
+		res = fmt.Sprintf("⟨%s, %s, %d, %d, %s⟩", b(fromLen), b(strict), lo, off, b(cmp))
+		return false
+	})
+	return res
+}
+
+// sortFacts reads Sort: collect count entries, sort.Sort by key, clear(), re-put with a mode.
+func sortFacts(fd *ast.FuncDecl, typ string) string {
+	if fd == nil {
+		return "⟨false, false, false, none⟩"
+	}
+	collects, sorts, clears := false, false, false
+	mode := "none"
+	listVar := ""
+	for _, s := range fd.Body.List {
+		switch t := s.(type) {
+		case *ast.AssignStmt:
+			if r := exprStr(t.Rhs[0]); strings.HasPrefix(r, "make(") {
+				listVar = exprStr(t.Lhs[0])
+			}
+		case *ast.ForStmt:
+			if exprStr(t.Cond) != "(i<sz)" || len(t.Body.List) == 0 {
+				continue
+			}
+			a := stmtAssign(t.Body.List[:1])
+			a = strings.ReplaceAll(a, " ", "")
+			switch {
+			case listVar != "" && strings.HasPrefix(a, listVar+"[i]=en.NextElement()"), listVar != "" && strings.HasPrefix(a, listVar+"[i]=en.Next"):
+				collects = len(t.Body.List) == 1
+			case listVar != "" && a == listVar+"[i]=e" && len(t.Body.List) == 2 && stmtAssign(t.Body.List[1:2]) == "e=e.link_next":
+				collects = true // walk of the order list (LinkedSet)
+			default:
+				c := strings.SplitN(stmtCalls(t.Body.List[0]), ";", 2)[0]
+				for m, lean := range modeNames {
+					if strings.HasPrefix(c, "this.put(") && strings.HasSuffix(c, ","+m+")") && strings.Contains(c, listVar+"[i]") {
+						mode = "(some " + lean + ")"
+					}
+				}
+				if mode == "none" && strings.HasPrefix(c, "this.put("+listVar+"[i].GetKey(),"+listVar+"[i].GetValue())") {
+					mode = "(some .last)" // plain map: put has no mode
+				}
+			}
+		case *ast.ExprStmt:
+			c := stmtCalls(t)
+			if strings.HasPrefix(c, "sort.Sort(") && strings.Contains(c, "compare") == false {
+				// composite literal argument: {compare: c, data: list}
+			}
+			if strings.HasPrefix(c, "sort.Sort(") {
+				if call, ok := t.X.(*ast.CallExpr); ok && len(call.Args) == 1 {
+					if cl, ok := call.Args[0].(*ast.CompositeLit); ok {
+						got := map[string]string{}
+						for _, el := range cl.Elts {
+							if kv, ok := el.(*ast.KeyValueExpr); ok {
+								got[exprStr(kv.Key)] = exprStr(kv.Value)
+							}
+						}
+						names, _ := params(fd)
+						sorts = got["compare"] == names[0] && got["data"] == listVar
+					}
+				}
+			}
+			if c == "this.clear()" {
+				clears = true
+			}
+		}
+	}
+	b := func(x bool) string {
+		if x {
+			return "true"
+		}
+		return "false"
+	}
+	return fmt.Sprintf("⟨%s, %s, %s, %s⟩", b(collects), b(sorts), b(clears), mode)
+}
+
+// wireFacts reads ToBytes (write calls on the DataOutputX parameter) or ToObject (read calls on the DataInputX parameter).
+func wireFacts(fd *ast.FuncDecl, reading bool) string {
+	if fd == nil {
+		return "⟨[], [], false⟩"
+	}
+	names, _ := params(fd)
+	stream := names[0]
+	call := func(e ast.Expr) string { // the stream call inside an expression, classified
+		res := ""
+		ast.Inspect(e, func(n ast.Node) bool {
+			c, ok := n.(*ast.CallExpr)
+			if !ok {
+				return true
+			}
+			f := exprStr(c.Fun)
+			if !strings.HasPrefix(f, stream+".") {
+				return true
+			}
+			m := strings.TrimPrefix(f, stream+".")
+			arg := ""
+			if len(c.Args) == 1 {
+				arg = exprStr(c.Args[0])
+			}
+			switch {
+			case !reading && m == "WriteDecimal" && strings.Contains(arg, "this.Size()"):
+				res = ".decCount"
+			case !reading && m == "WriteDecimal" && strings.Contains(arg, "e.GetKey()"):
+				res = ".decKey"
+			case !reading && m == "WriteDecimal" && strings.Contains(arg, "e.GetValue()"):
+				res = ".decVal"
+			case !reading && m == "WriteFloat" && arg == "e.GetValue()":
+				res = ".floatVal"
+			case reading && m == "ReadDecimal":
+				res = "dec"
+			case reading && m == "ReadFloat":
+				res = "float"
+			default:
+				res = ".unknown"
+			}
+			return false
+		})
+		return res
+	}
+	var head, per []string
+	puts := false
+	for _, s := range fd.Body.List {
+		switch t := s.(type) {
+		case *ast.ExprStmt:
+			if c := call(t.X); c != "" {
+				head = append(head, c)
+			}
+		case *ast.AssignStmt:
+			if c := call(t.Rhs[0]); c != "" {
+				if reading && exprStr(t.Lhs[0]) == "cnt" && c == "dec" {
+					head = append(head, ".decCount")
+				} else if !reading {
+					head = append(head, c)
+				} else {
+					head = append(head, ".unknown")
+				}
+			}
+		case *ast.ForStmt:
+			if reading && exprStr(t.Cond) != "(i<cnt)" {
+				per = append(per, ".unknown")
+			}
+			if !reading && exprStr(t.Cond) != "en.HasMoreElements()" {
+				per = append(per, ".unknown")
+			}
+			for _, b := range t.Body.List {
+				switch u := b.(type) {
+				case *ast.ExprStmt:
+					if c := call(u.X); c != "" {
+						per = append(per, c)
+					} else if reading && (stmtCalls(u) == "this.Put(key,value)") {
+						puts = true
+					}
+				case *ast.AssignStmt:
+					c := call(u.Rhs[0])
+					l := exprStr(u.Lhs[0])
+					switch {
+					case c == "":
+					case reading && l == "key" && c == "dec":
+						per = append(per, ".decKey")
+					case reading && l == "value" && c == "dec":
+						per = append(per, ".decVal")
+					case reading && l == "value" && c == "float":
+						per = append(per, ".floatVal")
+					default:
+						per = append(per, ".unknown")
+					}
+				}
+			}
+		}
+	}
+	if !reading {
+		puts = true // not applicable to ToBytes; the canonical record has `true`
+	}
+	b := "false"
+	if puts {
+		b = "true"
+	}
+	return fmt.Sprintf("⟨%s, %s, %s⟩", lst(head), lst(per), b)
 }
